@@ -84,6 +84,17 @@ CHECKS.update({
             "DESIGN.md §4 C06"),
 })
 
+CHECKS.update({
+    "C07": ("simquic+sched", "fault-confinement runtime monitor: 2..4 concurrent requests with a faulty subset (RESET at offset classes, STOP_SENDING, malformed message, oversized section, FIN before HEADERS) against raw peers and between real endpoints; per-stream error class/code oracle + C01 equality oracle on every healthy neighbour + no-close / driver-alive checks",
+            "Thousands of connections per run over three set-ups with PRNG schedules; every failing call on a faulty stream must be the stream-level class with the peer's code, no connection error or close may occur, and every healthy neighbour must deliver exactly its own message and complete. Held-on-observed.",
+            "Trusts the reference codec and simulator; a client seeing FIN before HEADERS is don't-care; RESET may overtake data.",
+            "DESIGN.md §4 C07"),
+    "C20": ("codec", "history checker with an executable RFC 9204 reference model (dynamic table, encoder/decoder instruction parsers, section resolver): generated histories of sections, sliced/late encoder-stream delivery, delayed/withheld acknowledgements and cancellations, through the cfg-guarded stateful Encoder/Decoder",
+            "20 000 (quick) / 2 000 000 (thorough) histories; after every step: h3's decoder returns the input list once its dependencies arrived and only 'blocked' before, the independent reference decoder agrees on the same bytes, table sizes stay within capacity on both sides, and no entry referenced by an unacknowledged section is evicted. Held-on-observed.",
+            "Trusts refimpl/qpack_dyn.rs (self-checked against RFC 9204 Appendix B vectors); capacity configured out of band on both sides; RFC 9204 §2.1.1/§2.1.2 breaches are recorded, not judged, unless a statement-level symptom follows; one known finding (eviction after stream cancel).",
+            "DESIGN.md §4 C20"),
+})
+
 NOT_YET = {}
 
 def main():
